@@ -9,10 +9,16 @@ import itertools
 from symlas import core, z
 from symlas.driver import apply_exclusions
 from symlas.values import SymStr, SymInt, B, fresh_int, fresh_bool, mkstr, concat
-from checks.common import allc, cond_str
+from checks.common import allc, cond_str, printable, not_char
+from symlas.stubs import SymFile, OutFile
+import numpy as np
+from symlas.values import isws
 
 PROPERTY = "C13"
 FUNCTIONS = [
+    "lasio/reader.py::parse_header_items_section",
+    "lasio/las.py::LASFile.read",
+    "lasio/writer.py::write",
     "lasio/las_items.py::HeaderItem.__init__",
     "lasio/las_items.py::HeaderItem.useful_mnemonic",
     "lasio/las_items.py::HeaderItem.__setattr__",
@@ -27,15 +33,16 @@ FUNCTIONS = [
 OPS = ["append", "insert", "del_index", "del_key", "replace"]
 ALPHABET = "AaB:12 "
 BOUNDS = {
-    "quick": {"history_len": 3, "name_cap": 3, "alphabet": ALPHABET, "ops": OPS, "task_budget_s": 600},
-    "thorough": {"history_len": 4, "name_cap": 3, "alphabet": ALPHABET, "ops": OPS, "task_budget_s": 3000},
+    "quick": {"history_len": 3, "name_cap": 3, "alphabet": ALPHABET, "ops": OPS, "file_items": 3, "file_name_len_cap": 2, "task_budget_s": 600},
+    "thorough": {"history_len": 4, "name_cap": 3, "alphabet": ALPHABET, "ops": OPS, "file_items": 3, "file_name_len_cap": 3, "task_budget_s": 3000},
 }
 ASSUMPTIONS = [
     "histories up to the stated length over append / insert(i) / delete by index / delete by session name / replace by session name",
     "names: every string up to 3 characters over the alphabet 'AaB:12 ' (case variants, blanks, suffix-like names inside)",
+    "file family: a LAS text whose ~Parameter or ~Curve section holds three lines with symbolic mnemonics (lengths 0..cap by exhaustive case-split, every character symbolic: printable, no blank, '.', ':', not starting with '~'/'#'), read with a symbolic mnemonic_case, written with the real writer and read again with the same option",
     "numbering is required for the group of the inserted name after each insertion - append, insert, or the item put in by a replacement - (the minimal reading of the statement); other items must keep their session name (frame)",
 ]
-WITNESS_TARGETS = ["suffix-assigned", "blank-becomes-UNKNOWN", "case-variants-grouped", "unique-name-untouched"]
+WITNESS_TARGETS = ["suffix-assigned", "blank-becomes-UNKNOWN", "case-variants-grouped", "unique-name-untouched", "file-with-blank-mnemonic-read-lower-case", "file-with-duplicates-round-trip"]
 
 
 def _useful_ref(name):
@@ -52,6 +59,8 @@ def _cmp(a, b, transforms):
 
 def _suffix_like_sym(i):
     """some name equals another name's useful mnemonic + ':' + digit (known finding class)"""
+    if "file" in i:
+        return False  # file mnemonics contain no ':'
     names = i["names"]
     tr = i["transforms"].e if hasattr(i["transforms"], "e") else i["transforms"]
     cs = []
@@ -68,6 +77,8 @@ def _suffix_like_sym(i):
 
 
 def _suffix_like_conc(i):
+    if "file" in i:
+        return False
     names = i["names"]
     tr = i["transforms"]
 
@@ -113,10 +124,184 @@ def tasks(tier):
                         break
             if ok and (k == b["history_len"] or OPS[seq[-1]] in ("append", "insert", "replace")):
                 out.append({"name": "-".join(OPS[o] for o in seq), "params": {"seq": [OPS[o] for o in seq], "cap": b["name_cap"]}, "weight": k})
+    fc = b["file_name_len_cap"]
+    for sec in ("P", "C"):
+        for lens in itertools.product(range(fc + 1), repeat=b["file_items"]):
+            if tier == "thorough" and max(lens) < 2 and sec == "P":
+                continue
+            if tier == "thorough" and sorted(lens) != list(lens):
+                continue  # the order of the lengths is covered at cap 1 (quick); thorough takes sorted length vectors
+            out.append({"name": "file/%s/%s" % (sec, "".join(map(str, lens))), "params": {"file": sec, "lens": list(lens)}, "weight": 2})
     return out
 
 
+def file_lines(sec, names):
+    """a LAS text (list of lines) whose section `sec` holds one line per name"""
+    def ln(k, nm):
+        tail = ".U%d  : c%d" % (k, k) if sec == "C" else ".U%d  %d : p%d" % (k, k + 5, k)
+        return concat([nm, tail]) if isinstance(nm, SymStr) else nm + tail
+    head = ["~Version", "VERS. 2.0 : v", "WRAP. NO : w", "~Well", "STRT.M 1 : s", "STOP.M 2 : e", "STEP.M 1 : i", "NULL. -999.25 : n", "~Curve", "DEPT.M : d"]
+    if sec == "C":
+        return head + [ln(k, nm) for k, nm in enumerate(names)] + ["~Parameter", "PP.u 1 : pp", "~A"] + ["%d %s" % (r + 1, " ".join(str(10 * (k + 1) + r) for k in range(len(names)))) for r in range(2)]
+    return head + ["~Parameter"] + [ln(k, nm) for k, nm in enumerate(names)] + ["~A", "1", "2"]
+
+
+def expected_session_names(originals, transforms):
+    """reference on concrete names: blank -> UNKNOWN; groups (ignoring case when `transforms`) of size > 1 numbered in order"""
+    useful = ["UNKNOWN" if n.strip() == "" else n for n in originals]
+    norm = (lambda x: x.upper()) if transforms else (lambda x: x)
+    out, seen = [], {}
+    for u in useful:
+        g = norm(u)
+        if sum(1 for w in useful if norm(w) == g) > 1:
+            seen[g] = seen.get(g, 0) + 1
+            out.append("%s:%d" % (u, seen[g]))
+        else:
+            out.append(u)
+    return out
+
+
+def h_file(ns, params):
+    sec, lens = params["file"], params["lens"]
+    secname = {"P": "Parameter", "C": "Curves"}[sec]
+
+    def run():
+        A = core.assume
+        core.OPTS["concretize"] = True
+        names = []
+        for k, n in enumerate(lens):
+            if n == 0:
+                names.append("")
+                continue
+            nm = SymStr.fresh("m%d" % k, n, fixed_len=n)
+            A(allc(nm, lambda c: z.And(printable(c), z.Not(isws(c)), not_char(".", ":", " ")(c))))  # isws: also U+00A0, which str.strip() removes
+            A(z.Not(z.in_set_c(nm.chars[0], (126, 35))))
+            names.append(nm)
+        mc = fresh_int("mnemonic_case", 0, 2)
+        inputs = {"file": sec, "names": names, "mnemonic_case": mc}
+        c = core.ctx()
+        c.inputs = inputs
+        apply_exclusions(inputs)
+        mcase = ["preserve", "upper", "lower"][mc.__index__()]
+        trz = mcase != "preserve"
+        cm = {"preserve": lambda x: x, "upper": lambda x: x.upper(), "lower": lambda x: x.lower()}[mcase]
+        core.witness("file-with-blank-mnemonic-read-lower-case", mcase == "lower" and 0 in lens)
+        lines = file_lines(sec, names)
+        las = ns.las.LASFile()
+        try:
+            las.read(SymFile(lines), mnemonic_case=mcase, engine="normal")
+        except Exception as e:
+            core.oblige("file-is-readable", False, info=repr(e)[:200])
+            return {"observed": {"raised": "read:" + type(e).__name__}}
+        section = las.sections[secname]
+        items = list(list.__iter__(section))
+        if sec == "C":
+            items = items[1:]
+        if len(items) != len(names):
+            core.oblige("one-item-per-line", False, info="%d items" % len(items))
+            return {"observed": {"raised": None, "n": len(items)}}
+        want_orig = [SymStr.lift(cm(SymStr.lift(nm))) for nm in names]
+        useful = [("UNKNOWN" if n == 0 else want_orig[k]) for k, n in enumerate(lens)]
+        # partition of the names into groups: the comparisons fork the path (at most a handful of partitions)
+        grp = list(range(len(names)))
+        for a in range(len(names)):
+            for b_ in range(a):
+                if grp[b_] == b_ and core.decide(_cmp(useful[a], useful[b_], trz)):
+                    grp[a] = b_
+                    break
+        sizes = {g: grp.count(g) for g in grp}
+        core.witness("file-with-duplicates-round-trip", max(sizes.values()) > 1)
+        want_sess, seen = [], {}
+        for k, g in enumerate(grp):
+            if sizes[g] > 1:
+                seen[g] = seen.get(g, 0) + 1
+                want_sess.append(concat([useful[k], ":%d" % seen[g]]))
+            else:
+                want_sess.append(useful[k])
+        obl = []
+        for k, it in enumerate(items):
+            obl.append(("file-original-is-the-case-mapped-text[%d]" % k, SymStr.lift(it.original_mnemonic).eq_expr(want_orig[k])))
+            obl.append(("file-session-name[%d]" % k, SymStr.lift(it.mnemonic).eq_expr(want_sess[k])))
+        core.oblige_all(obl)
+        obl = []
+        for k, it in enumerate(items):
+            try:
+                obl.append(("file-item-access-resolves-to-own-item[%d]" % k, section[it.mnemonic] is it))
+                if sec == "C":
+                    obl.append(("file-LASFile-access-resolves-to-own-curve[%d]" % k, las[it.mnemonic] is it.data))
+            except Exception as e:
+                obl.append(("file-item-access-resolves-to-own-item[%d]" % k, False))
+        core.oblige_all(obl)
+        # round trip: what write() emits is the original mnemonic, and the same session names come back
+        try:
+            out = OutFile(name="<written>")
+            ns.writer.write(las, out)
+            las2 = ns.las.LASFile()
+            las2.read(SymFile(out.lines()), mnemonic_case=mcase, engine="normal")
+        except Exception as e:
+            core.oblige("file-round-trip-does-not-raise", False, info=repr(e)[:200])
+            return {"observed": {"raised": "roundtrip:" + type(e).__name__}}
+        items2 = list(list.__iter__(las2.sections[secname]))
+        if sec == "C":
+            items2 = items2[1:]
+        obl = [("file-round-trip-same-number-of-items", len(items2) == len(items))]
+        if len(items2) == len(items):
+            for k, (a, b_) in enumerate(zip(items, items2)):
+                obl.append(("file-round-trip-original[%d]" % k, SymStr.lift(b_.original_mnemonic).eq_expr(a.original_mnemonic)))
+                obl.append(("file-round-trip-session-name[%d]" % k, SymStr.lift(b_.mnemonic).eq_expr(a.mnemonic)))
+        core.oblige_all(obl)
+        return {"observed": {"raised": None, "n": len(items)}}
+
+    return run
+
+
+def replay_file(i):
+    import io
+    import lasio
+
+    sec, names = i["file"], i["names"]
+    secname = {"P": "Parameter", "C": "Curves"}[sec]
+    mcase = ["preserve", "upper", "lower"][i["mnemonic_case"]]
+    cm = {"preserve": lambda x: x, "upper": lambda x: x.upper(), "lower": lambda x: x.lower()}[mcase]
+    text = "\n".join(file_lines(sec, names)) + "\n"
+    try:
+        las = lasio.read(text, mnemonic_case=mcase, engine="normal")
+    except Exception as e:
+        return {"ok": False, "detail": "read raised %r for %r" % (e, text), "observed": {"raised": "read:" + type(e).__name__}}
+    section = las.sections[secname]
+    items = list(section)[1:] if sec == "C" else list(section)
+    problems = []
+    if len(items) != len(names):
+        return {"ok": False, "detail": "%d items for %d lines: %r" % (len(items), len(names), section), "observed": {"raised": None, "n": len(items)}}
+    want_orig = [cm(n) for n in names]
+    want_sess = expected_session_names(want_orig, mcase != "preserve")
+    got_orig, got_sess = [it.original_mnemonic for it in items], [it.mnemonic for it in items]
+    if got_orig != want_orig:
+        problems.append("original mnemonics %r, file has %r (mnemonic_case=%s)" % (got_orig, names, mcase))
+    if got_sess != want_sess:
+        problems.append("session names %r, expected %r (mnemonic_case=%s)" % (got_sess, want_sess, mcase))
+    for it in items:
+        try:
+            if section[it.mnemonic] is not it or (sec == "C" and las[it.mnemonic] is not it.data):
+                problems.append("access by %r resolves to another item" % (it.mnemonic,))
+        except Exception as e:
+            problems.append("access by %r raises %r" % (it.mnemonic, e))
+    try:
+        out = io.StringIO()
+        las.write(out)
+        las2 = lasio.read(out.getvalue(), mnemonic_case=mcase, engine="normal")
+    except Exception as e:
+        return {"ok": False, "detail": "round trip raised %r" % (e,), "observed": {"raised": "roundtrip:" + type(e).__name__}}
+    sec2 = las2.sections[secname]
+    items2 = list(sec2)[1:] if sec == "C" else list(sec2)
+    if [it.original_mnemonic for it in items2] != got_orig or [it.mnemonic for it in items2] != got_sess:
+        problems.append("after write->read: originals %r sessions %r; before %r %r; written:\n%s" % ([it.original_mnemonic for it in items2], [it.mnemonic for it in items2], got_orig, got_sess, out.getvalue()[:600]))
+    return {"ok": not problems, "detail": "; ".join(problems) or "ok", "observed": {"raised": None, "n": len(items)}}
+
+
 def harness(ns, params):
+    if "file" in params:
+        return h_file(ns, params)
     seq, cap = params["seq"], params["cap"]
     HeaderItem, SectionItems = ns.items.HeaderItem, ns.items.SectionItems
     codes = tuple(ord(c) for c in ALPHABET)
@@ -223,6 +408,8 @@ def z3_low8(e):
 def replay(i):
     import lasio
 
+    if "file" in i:
+        return replay_file(i)
     seq, names, idxs, tr = i["seq"], i["names"], i["idxs"], i["transforms"]
     seq = seq[: len(idxs)]  # a counterexample found at step t only fixes the first t+1 steps
     s = lasio.SectionItems()
